@@ -1,9 +1,13 @@
-(** C03 — conditional branches always reach; long-branch repair preserves control flow.
-    Only statements here; proofs are in Proofs/CbFacts.v.  Model: Model/CheckBranches.v
+(** C03 — conditional branches always reach; long-branch repair preserves control flow, and (end
+    of the file) the behaviour of the whole code.
+    Only statements here; proofs are in Proofs/CbFacts.v and Proofs/CbSimFacts.v.  Model: Model/CheckBranches.v
     (tied to src/assemble.rs check_branches by the unit correspondence of tools/props/c03.py). *)
 From Coq Require Import String Ascii List Bool NArith ZArith.
 From CC Require Import Base.Str Asm.Lines M6502.Isa Asm.Operand M6502.Sem
      Model.CheckBranches Model.CbSpec Proofs.CbFacts.
+From CC Require Import Model.Optimize Model.OptSem Model.OptSim Model.OptSimCF Model.CbSim
+     Proofs.OptSimFacts Proofs.OptSimCFFacts Proofs.CbSimFacts.
+From CC Require Proofs.GenLoopsFacts.
 Import ListNotations.
 
 (** every conditional branch of the result whose label is defined exactly once is within the
@@ -57,3 +61,54 @@ Definition far_example : code :=
 Example C03_example_repaired :
   exists c', check_branches far_example = CbOk c' 1%N /\ length c' = 54.
 Proof. vm_compute. eexists. split; reflexivity. Qed.
+
+(** * The repair preserves the behaviour of the whole code *)
+
+(** windows of different lengths: [D] without a label, the labels of [M] fresh, [M] leaving like
+    [D] from the top of the window *)
+Theorem C03_window_gen : forall (A D M T : code),
+  all_labels D = [] ->
+  (forall l, In l (all_labels M) -> ~ In l (all_labels (A ++ D ++ T))) ->
+  forall cfg, D <> [] -> enters_alike cfg A D M T ->
+  forall s s', halts cfg (A ++ D ++ T) s s' -> halts cfg (A ++ M ++ T) s s'.
+Proof. exact window_gen. Qed.
+
+(** whenever the original halts, the repaired code halts in the same state *)
+Theorem C03_check_branches_sound : forall cfg c c' n s s',
+  no_fix_labels c -> check_branches c = CbOk c' n ->
+  halts cfg c s s' -> halts cfg c' s s'.
+Proof. exact check_branches_sound. Qed.
+
+(** the same on [Sem.run] *)
+Theorem C03_check_branches_run : forall cfg c c' n s s',
+  no_fix_labels c -> cf_ok cfg c = true -> check_branches c = CbOk c' n ->
+  GenLoopsFacts.halts_to cfg c s s' -> GenLoopsFacts.halts_to cfg c' s s'.
+Proof. exact check_branches_run. Qed.
+
+(** what is emitted for a function body at -O1: optimise, then repair the far branches *)
+Theorem C03_pipeline_sound : forall cfg c c2 n s s',
+  ports cfg = [] -> bytes_ok s -> cf_ok cfg c = true -> NoDup (lbls c) -> rb_free c = true ->
+  no_fix_labels c -> check_branches (fst (optimize c)) = CbOk c2 n ->
+  halts cfg c s s' ->
+  exists s'', halts cfg c2 s s'' /\ eq_state s'' s'.
+Proof. exact pipeline_sound. Qed.
+
+Theorem C03_pipeline_run : forall cfg c c2 n s s',
+  ports cfg = [] -> bytes_ok s -> cf_ok cfg c = true -> NoDup (lbls c) -> rb_free c = true ->
+  no_fix_labels c -> check_branches (fst (optimize c)) = CbOk c2 n ->
+  GenLoopsFacts.halts_to cfg c s s' ->
+  exists s'', GenLoopsFacts.halts_to cfg c2 s s'' /\ eq_state s'' s'.
+Proof. exact pipeline_run. Qed.
+
+(** non-vacuity: a branch over 65 "INC w" (130 bytes) is repaired; both versions run to the same
+    state (the increments are executed, at shifted positions) *)
+Theorem C03_check_branches_sound_example :
+  no_fix_labels cb_code /\
+  exists c' s', check_branches cb_code = CbOk c' 1%N /\
+                halts sim_cfg cb_code sim_state s' /\ halts sim_cfg c' sim_state s' /\
+                rA s' = 9%Z /\ rX s' = 2%Z /\ mget (mem s') 128 = 74%Z.
+Proof. exact check_branches_sound_example. Qed.
+
+Definition C03_cb_code_repaired := cb_code_repaired.
+Definition C03_cb_pair_example := cb_pair_example.
+Definition C03_pipeline_sound_example := pipeline_sound_example.
